@@ -10,6 +10,7 @@ structure World where
   now : Nat
   nodes : Nat → Option Node
   cur : Nat
+  lastReset : Nat := 0     -- the node the next `info` line belongs to
 
 def frameStr (f : Frame) : String :=
   s!"{String.ofList (Nat.toDigits 16 f.id)}:{f.len}:{hexOfBytes (f.data.take (min f.len 8))}"
@@ -91,7 +92,7 @@ def step (e : Eng) (w : List String) : Eng × String :=
         | some ds =>
           let nd := mkNode f q ns mode now (ok == "1") ds
           if op = "reset" then ({ w := { now := now, nodes := fun k => if k = 0 then some nd else none, cur := 0 }, allTp := fun _ => [] }, "ok")
-          else ({ w := { e.w with now := now, nodes := fun k => if k = 1 then some nd else e.w.nodes k }, allTp := fun k => if k = 1 then [] else e.allTp k }, "ok")
+          else ({ w := { e.w with now := now, nodes := fun k => if k = 1 then some nd else e.w.nodes k, lastReset := 1 }, allTp := fun k => if k = 1 then [] else e.allTp k }, "ok")
         | none => (e, "bad-op")
       | _, _, _, _ => (e, "bad-op")
     else if op = "send" then
@@ -112,6 +113,14 @@ def step (e : Eng) (w : List String) : Eng × String :=
         | _, _, _, _, _, _ => (e, "bad-op")
       | _ => (e, "bad-op")
     else (e, "bad-op")
+  | ["info", p, c, g] =>
+    match parseInfo 126996 p, parseInfo 126998 c, nat? g with
+    | some pm, some cm, some gap =>
+      match e.w.nodes e.w.lastReset with
+      | some n => ({ e with w := { e.w with nodes := fun k => if k = e.w.lastReset then some { n with prod := pm, conf := some cm, bamGap := gap }
+                                                              else e.w.nodes k } }, "ok")
+      | none => (e, "bad-op")
+    | _, _, _ => (e, "bad-op")
   | ["info", p, c] =>
     match parseInfo 126996 p, parseInfo 126998 c with
     | some pm, some cm => withNode e fun n => ({ n with prod := pm, conf := some cm }, "ok")
